@@ -159,6 +159,98 @@ theorem maxDispatch_ge (arm : Arm) (sc : Scores C) (m : UInt8) (hm : maxDispatch
   · exact maxGeneric_ge sc m hm r c hr hc
   · exact maxAvx2_ge sc m hm r c hr hc
 
+/-! ### the block maximum is attained (used by the bridge to C07, `Props/Bridge/B2`) -/
+
+/-- the running maximum is its start value or one of the elements -/
+theorem foldl_max_mem (l : List UInt8) (init : UInt8) :
+    l.foldl (fun m x => if x ≥ m then x else m) init = init ∨
+      l.foldl (fun m x => if x ≥ m then x else m) init ∈ l := by
+  induction l generalizing init with
+  | nil => exact Or.inl rfl
+  | cons a t ih =>
+    simp only [List.foldl_cons, List.mem_cons]
+    rcases ih (if a ≥ init then a else init) with h | h
+    · rw [h]
+      split_ifs
+      · exact Or.inr (Or.inl rfl)
+      · exact Or.inl rfl
+    · exact Or.inr (Or.inr h)
+
+theorem foldl_max_map_mem {β : Type} (l : List β) (f : β → UInt8) (init : UInt8) :
+    l.foldl (fun m b => if f b ≥ m then f b else m) init = init ∨
+      ∃ b ∈ l, f b = l.foldl (fun m b => if f b ≥ m then f b else m) init := by
+  have := foldl_max_mem (l.map f) init
+  rw [List.foldl_map] at this
+  rcases this with h | h
+  · exact Or.inl h
+  · obtain ⟨b, hb, hfb⟩ := List.mem_map.1 h
+    exact Or.inr ⟨b, hb, hfb⟩
+
+/-- an invariant kept by every step on an element of the list is kept by the fold -/
+theorem foldl_inv {β γ : Type} (P : β → Prop) (f : β → γ → β) (l : List γ) (init : β) (h0 : P init)
+    (hstep : ∀ acc x, x ∈ l → P acc → P (f acc x)) : P (l.foldl f init) := by
+  induction l generalizing init with
+  | nil => exact h0
+  | cons a t ih =>
+    simp only [List.foldl_cons]
+    exact ih _ (hstep init a (List.mem_cons_self ..) h0)
+      (fun acc x hx => hstep acc x (List.mem_cons_of_mem _ hx))
+
+/-- `max_u8_avx2` returns the content of a cell: the lane maxima start from zero, and a zero result
+    is attained as soon as there is a cell, every cell being `≤` it -/
+theorem maxAvx2_attained (hC : 0 < C) (sc : Scores C) (m : UInt8) (hm : maxAvx2 sc = some m) :
+    ∃ r c, r < sc.data.rows ∧ c < C ∧ sc.data.get r c = m := by
+  have hge := maxAvx2_ge sc m hm
+  have hrows : sc.data.rows ≠ 0 := by
+    intro h0; unfold maxAvx2 at hm; rw [if_pos h0] at hm; cases hm
+  have hzero : m = 0 → ∃ r c, r < sc.data.rows ∧ c < C ∧ sc.data.get r c = m := by
+    intro h0
+    refine ⟨0, 0, by omega, hC, ?_⟩
+    have h := hge 0 0 (by omega) hC
+    rw [h0] at h ⊢
+    rw [UInt8.le_iff_toNat_le] at h
+    exact UInt8.toNat_inj.1 (by simpa using h)
+  unfold maxAvx2 at hm
+  rw [if_neg hrows] at hm
+  simp only [Option.some.injEq] at hm
+  rcases foldl_max_mem ((List.range C).map fun c =>
+      (List.range sc.data.rows).foldl (fun m r => if sc.data.get r c ≥ m then sc.data.get r c else m) 0) 0
+    with h1 | h1
+  · exact hzero (hm ▸ h1)
+  · rw [hm] at h1
+    obtain ⟨c, hc, hcm⟩ := List.mem_map.1 h1
+    rcases foldl_max_map_mem (List.range sc.data.rows) (fun r => sc.data.get r c) 0 with h2 | ⟨r, hr, h2⟩
+    · exact hzero (by rw [← hcm]; exact h2)
+    · exact ⟨r, c, List.mem_range.1 hr, List.mem_range.1 hc, by rw [h2]; exact hcm⟩
+
+/-- the trait-default `max` reads the cell `argmax` designates, which lies inside the matrix -/
+theorem maxGeneric_attained (hC : 0 < C) (sc : Scores C) (m : UInt8) (hm : maxGeneric sc = some m) :
+    ∃ r c, r < sc.data.rows ∧ c < C ∧ sc.data.get r c = m := by
+  unfold maxGeneric at hm
+  split_ifs at hm with h
+  simp only [Option.some.injEq] at hm
+  have hin := foldl_inv (fun acc : Nat × Nat × UInt8 => acc.1 < sc.data.rows ∧ acc.2.1 < C)
+    (fun acc i => (List.range C).foldl (fun (acc : Nat × Nat × UInt8) j =>
+      if sc.data.get i j ≥ acc.2.2 then (i, j, sc.data.get i j) else acc) acc)
+    (List.range sc.data.rows) (0, 0, sc.data.get 0 0) ⟨by omega, hC⟩
+    (fun acc i hi hacc => foldl_inv (fun acc : Nat × Nat × UInt8 => acc.1 < sc.data.rows ∧ acc.2.1 < C)
+      (fun (acc : Nat × Nat × UInt8) j =>
+        if sc.data.get i j ≥ acc.2.2 then (i, j, sc.data.get i j) else acc)
+      (List.range C) acc hacc (fun acc j hj hacc => by
+        show (if sc.data.get i j ≥ acc.2.2 then (i, j, sc.data.get i j) else acc).1 < sc.data.rows ∧
+          (if sc.data.get i j ≥ acc.2.2 then (i, j, sc.data.get i j) else acc).2.1 < C
+        split_ifs
+        · exact ⟨List.mem_range.1 hi, List.mem_range.1 hj⟩
+        · exact hacc))
+  exact ⟨_, _, hin.1, hin.2, hm⟩
+
+theorem maxDispatch_attained (hC : 0 < C) (arm : Arm) (sc : Scores C) (m : UInt8)
+    (hm : maxDispatch arm sc = some m) : ∃ r c, r < sc.data.rows ∧ c < C ∧ sc.data.get r c = m := by
+  cases arm <;> simp only [maxDispatch] at hm
+  · exact maxGeneric_attained hC sc m hm
+  · exact maxGeneric_attained hC sc m hm
+  · exact maxAvx2_attained hC sc m hm
+
 /-! ### the candidate list -/
 
 theorem threshold_mem (sc : Scores C) (t : UInt8) (r c : Nat) :
